@@ -21,6 +21,30 @@ VIEW_PARTIAL = ('einsum',)               # numpy.einsum('...ii->...i', out): the
 VIEW_SLICE = ('get_item',)               # out[..., slice]: a partition over loop iterations
 
 
+def _view_kind(v):
+    '''`v` as a view of the destination `out`: 'partial' (einsum diagonal), 'full' (transpose), 'slice' (out[..., slice]) or None.'''
+    if isinstance(v, ast.Call) and isinstance(v.func, ast.Attribute):
+        t = src(v)
+        if v.func.attr == 'call' and any(src(a) == 'out' for a in v.args):
+            if "get_attr('einsum')" in t:
+                return 'partial'
+            if "get_attr('transpose')" in t:
+                return 'full'
+        if v.func.attr == 'get_item' and src(v.func.value) == 'out':
+            return 'slice'
+    return None
+
+
+def _own_destination(f, dst):
+    '''Is the destination expression (a local name, or a view of `out` built in place) storage owned by f?'''
+    if isinstance(dst, ast.Name):
+        return _own_storage(f, dst.id)
+    k = _view_kind(dst)
+    if k is not None:
+        return _own_storage(f, 'out')[0], ('a slice of out' if k == 'slice' else 'a view of out')
+    return False, 'not a local'
+
+
 def _own_storage(f, name):
     '''Is local `name` storage owned by the emitting function f?  returns (bool, why)'''
     pos = params(f.node)[0]
@@ -76,11 +100,11 @@ def check_destinations(model, rep, rule='R02.1'):
         for c in calls_in(f.node, nested=False):
             if method_name(c) == 'compile_with_out' and isinstance(c.func, ast.Attribute) and src(c.func.value) == 'builder' and len(c.args) >= 2:
                 dst = c.args[1]
-                ok, why = (_own_storage(f, dst.id) if isinstance(dst, ast.Name) else (False, 'not a local'))
+                ok, why = _own_destination(f, dst)
                 rep.ob(rule, f.key, f.where(c), ok, f'child is compiled into {why}' if ok else f'`{src(c)[:70]}` lets a child write in place into storage this node does not own ({why})', statement=f'compile_with_out({src(dst)})')
             if method_name(c) == '_compile_with_out' and src(c.func.value) == 'self' and len(c.args) >= 2:
                 dst = c.args[1]
-                ok, why = (_own_storage(f, dst.id) if isinstance(dst, ast.Name) else (False, 'not a local'))
+                ok, why = _own_destination(f, dst)
                 rep.ob(rule, f.key, f.where(c), ok, f'self is compiled into {why}' if ok else f'`{src(c)[:70]}` writes in place into storage that is not fresh ({why})', statement=f'self._compile_with_out({src(dst)})')
 
 
@@ -95,14 +119,8 @@ def check_zero_fill(model, rep):
         n += 1
         views = {}
         for s in find_stmts(f.body, lambda s: isinstance(s, ast.Assign)):
-            if isinstance(s.targets[0], ast.Name) and isinstance(s.value, ast.Call):
-                t = src(s.value)
-                if "get_attr('einsum')" in t and 'out' in [src(a) for a in s.value.args]:
-                    views[s.targets[0].id] = 'partial'
-                elif "get_attr('transpose')" in t and 'out' in [src(a) for a in s.value.args]:
-                    views[s.targets[0].id] = 'full'
-                elif method_name(s.value) == 'get_item' and src(s.value.func.value) == 'out':
-                    views[s.targets[0].id] = 'slice'
+            if isinstance(s.targets[0], ast.Name) and _view_kind(s.value) is not None:
+                views[s.targets[0].id] = _view_kind(s.value)
 
         def on_stmt(s, st):
             evs = []
@@ -116,7 +134,7 @@ def check_zero_fill(model, rep):
                     evs.append(Event('ACC', s, 'add_at'))
                 elif m == 'compile_with_out' and len(call.args) >= 4:
                     dst, mode = src(call.args[1]), call.args[3]
-                    kind = 'out' if dst == 'out' else views.get(dst, '?')
+                    kind = 'out' if dst == 'out' else views.get(dst) or _view_kind(call.args[1]) or '?'
                     if const(mode) == 'iadd':
                         evs.append(Event('ACC', s, f'iadd into {dst}'))
                     elif src(mode) == 'mode':
